@@ -214,7 +214,7 @@ def run(chk, replay=None):
         'x (loose_units, check_units, canonical_units); quick: complete pairs for * and / (value kinds that the code distinguishes), complete '
         'pairs for + and == at the default setting, seeded sample of pairs under the 7 other settings and for -; thorough: everything under '
         'all 8 settings; ** for n in {2,-1,3} on every operand; every transform row of the translated table on every quantity; '
-        'non-trivial = the real operator returned a result (not an error) or the spec demands a refusal; distinct by (operator, setting, operand descriptors)')
+        'every domain change offered through the call syntax X(t), X(s), X(f), X(omega), X(jw), X(jf) and the named methods, one and two steps deep from a Laplace- and a time-domain start, for every quantity class (step rule + route independence); non-trivial = the real operator returned a result (not an error) or the spec demands a refusal; distinct by (operator, setting, operand descriptors)')
     disagreements = []
     cex = [0]
     new_keys = set()
@@ -577,6 +577,10 @@ def run(chk, replay=None):
     chk.coverage['diagnostics_domain_change_outside_the_six_integral_transforms_alters_dimension'] = {
         k: {'quantities': len(v), 'first': v[:2]} for k, v in diag_subst.items()}
 
+    # ---- 3d'. every domain change Lcapy offers, step by step and route against route
+    if replay_input is None or replay_input.get('op') == 'route':
+        route_stream(chk, R, ask, violation, quick, replay_input)
+
     # ---- 3e. circuit-analysis outputs carry the right quantity and units
     if replay_input is None or 'netlist' in replay_input:
         circuit_outputs(chk, R, ask, violation)
@@ -612,7 +616,8 @@ def run(chk, replay=None):
     # a failed `flag_*` theorem says the code lacks one of the repairs; it is explained exactly when the
     # oracle has exhibited the corresponding recorded finding in this run
     flag_finding = {'flag_div_restores_units': 'C18-F19', 'flag_pow_sets_units': 'C18-F18',
-                    'flag_recip_sets_units': 'C18-F19b', 'flag_omega_needs_quantity': 'C18-F20'}
+                    'flag_recip_sets_units': 'C18-F19b', 'flag_omega_needs_quantity': 'C18-F20',
+                    'flag_canon_folds_hertz': 'C18-F24'}
     unexplained_broken = [b for b in broken if flag_finding.get(b.split(':')[-1]) not in chk.known_seen]
     chk.coverage['broken_obligations_explained_by_known_findings'] = [b for b in broken if b not in unexplained_broken]
     if unexplained_broken and cex[0] == 0:
@@ -626,6 +631,144 @@ def run(chk, replay=None):
             chk.unexplained('broken-obligation', 'translator-unparsed:' + u['item'], u['why'])
     if disagreements and cex[0] == 0:
         chk.unexplained('broken-correspondence', disagreements[0]['what'], disagreements[0])
+
+
+ROUTE_ARGS = ['t', 's', 'f', 'omega', 'jw', 'jf']
+ROUTE_METHODS = ['time', 'laplace', 'inverse_laplace', 'fourier', 'inverse_fourier', 'angular_fourier',
+                 'frequency_response', 'angular_frequency_response']
+ROUTE_DOMAINS = ('time', 'laplace', 'fourier', 'angular fourier', 'frequency response', 'angular frequency response')
+ROUTE_STARTS = {'laplace': ('1/(s+1)', {'causal': True}), 'time': ('exp(-t)*Heaviside(t)', {})}
+
+
+def route_stream(chk, R, ask, violation, quick, replay_input):
+    """Domain changes through the call syntax X(t), X(s), X(f), X(omega), X(jw), X(jf) and the named methods, for
+    every quantity class, from a Laplace-domain and a time-domain start, one and two steps deep.
+      * every single step is judged by the spec predicate stepOk (quantity kept, radian never enters, x s into the
+        frequency-like domains, x Hz back to time, nothing between frequency-like domains);
+      * route independence: whatever route leads to a domain, the units agree (sameUnits), the results can be added
+        and compare equal when they do with the units check switched off."""
+    import lcapy
+    argobj = {}
+    for nm in ROUTE_ARGS:
+        argobj[nm] = getattr(lcapy, nm, None) or getattr(__import__('lcapy.symbols', fromlist=[nm]), nm)
+    arg_domain = {'t': 'time', 's': 'laplace', 'f': 'fourier', 'omega': 'angular fourier',
+                  'jw': 'angular frequency response', 'jf': 'frequency response'}
+    quantities = QORDER if not quick else ['impedance', 'voltage', 'admittance', 'transfer', 'current', 'power', 'undefined',
+                                           'voltagesquared', 'impedancesquared']
+    only = replay_input.get('quantity') if replay_input else None
+
+    def step(x, how):
+        if how in argobj:
+            return x(argobj[how])
+        return getattr(x, how)()
+
+    def judge_step(start, q, route, a, r):
+        ad, rd = R.describe(a), R.describe(r)
+        chk.count('operator', 'route-step')
+        chk.case(('route-step', start, q, tuple(route)), True)
+        inp = {'op': 'route', 'start': start, 'quantity': q, 'route': list(route), 'value': ROUTE_STARTS[start][0]}
+        if rd[2] is None or ad[2] is None or rd[0] not in WIRE or ad[0] not in WIRE:
+            chk.count('route', 'not-judged')
+            return
+        ok = ask('q.stepok %s %s %s %s %s %s' % (wire_domain(ad[0]), wire_domain(rd[0]), ad[1], ustr(ad[2]), rd[1], ustr(rd[2])))
+        if ok != 'true':
+            violation({'kind': 'route-step', 'family': 'other', 'source': ad[0], 'target': rd[0], 'quantity': q}, inp,
+                      {'operand': [ad[0], ad[1], str(a.units)], 'result': [rd[0], rd[1], str(r.units)]},
+                      'stepOk: quantity kept, radian never enters, x s into a frequency-like domain, x Hz back to time, nothing between frequency-like domains',
+                      '%s -> %s of a %s: units %s -> %s' % (ad[0], rd[0], q, a.units, r.units))
+
+    for q in quantities:
+        if only and q != only:
+            continue
+        for start, (val, kw) in ROUTE_STARTS.items():
+            try:
+                X = R.exprclasses[start][q](val, **kw)
+            except Exception:   # noqa
+                chk.count('route', 'cannot-build')
+                continue
+            reached = {}      # final domain -> [(route, object)]
+            level1 = []
+            for how in ROUTE_ARGS + ROUTE_METHODS:
+                try:
+                    r = step(X, how)
+                except Exception as e:   # noqa
+                    chk.count('route', 'not-offered:%s.%s:%s' % (start, how, type(e).__name__))
+                    continue
+                if not hasattr(r, 'domain') or r.domain not in ROUTE_DOMAINS:
+                    continue
+                judge_step(start, q, [how], X, r)
+                reached.setdefault(r.domain, []).append(([how], r))
+                if how in ROUTE_ARGS:
+                    level1.append((how, r))
+            for how1, r1 in level1:
+                for how2 in ROUTE_ARGS:
+                    try:
+                        r2 = step(r1, how2)
+                    except Exception as e:   # noqa
+                        chk.count('route', 'not-offered:%s.%s:%s' % (r1.domain, how2, type(e).__name__))
+                        continue
+                    if not hasattr(r2, 'domain') or r2.domain not in ROUTE_DOMAINS:
+                        continue
+                    judge_step(start, q, [how1, how2], r1, r2)
+                    reached.setdefault(r2.domain, []).append(([how1, how2], r2))
+            # route independence
+            for dom, lst in reached.items():
+                ref_route, ref = min(lst, key=lambda t: (len(t[0]), ROUTE_ARGS.index(t[0][0]) if t[0][0] in ROUTE_ARGS else 99))
+                if dom == start:
+                    ref_route, ref = [], X
+                ru = R.units_vec(ref.units)
+                for route, y in lst:
+                    if y is ref:
+                        continue
+                    chk.count('operator', 'route-pair')
+                    chk.case(('route-pair', start, q, dom, tuple(route)), True)
+                    yu = R.units_vec(y.units)
+                    if ru is None or yu is None:
+                        continue
+                    inp = {'op': 'route', 'start': start, 'quantity': q, 'route': list(route), 'reference_route': list(ref_route),
+                           'value': val, 'domain': dom}
+                    through_response = any(h in ('jw', 'jf', 'frequency_response', 'angular_frequency_response') for h in route + ref_route)
+                    signal = q in ('voltage', 'current', 'voltagesquared', 'currentsquared')
+                    fam = 'signal-through-frequency-response-domain' if (signal and through_response) else 'other'
+                    key = {'kind': 'route-independence', 'family': fam} if fam != 'other' else \
+                        {'kind': 'route-independence', 'family': fam, 'domain': dom, 'quantity': q}
+                    if q == 'undefined':
+                        continue          # no quantity, no claim about units
+                    if q in ('power', 'voltagesquared', 'currentsquared', 'impedancesquared', 'admittancesquared'):
+                        # product quantities: class defaults are not transform-consistent (recorded observation);
+                        # only the power of the radian is compared
+                        if ru[7] != yu[7]:
+                            violation(key, inp, {'reference_units': str(ref.units), 'units': str(y.units)},
+                                      'the radian never enters the units of a transformed expression', 'power of rad differs between routes')
+                        continue
+                    if ask('q.sameunits %s %s' % (ustr(ru), ustr(yu))) != 'true':
+                        violation(key, inp, {'reference_units': str(ref.units), 'units': str(y.units)},
+                                  'sameUnits: the units of X in a domain do not depend on the route taken (SI dimension and power of rad)',
+                                  '%s of a %s via %s has units %s, via %s units %s' % (dom, q, '.'.join(route) or 'start', y.units,
+                                                                                     '.'.join(ref_route) or 'start', ref.units))
+                        continue
+                    # same units: then the two must be addable and comparable
+                    def on(check):
+                        return R.with_cfg((True, check, False), lambda: (ref == y))
+                    try:
+                        R.with_cfg((True, True, False), lambda: ref + y)
+                        added = True
+                    except ValueError as e:
+                        added = R.errkind(e)
+                    except Exception:   # noqa
+                        added = True        # not a units matter
+                    if added is not True:
+                        violation(key, inp, {'reference_units': str(ref.units), 'units': str(y.units), 'add': added},
+                                  'results reached by two routes can be added', 'sum refused (%s)' % added)
+                        continue
+                    try:
+                        if on(False) is True and on(True) is not True:
+                            violation(key, inp, {'reference_units': str(ref.units), 'units': str(y.units)},
+                                      'results reached by two routes compare equal', '== is False only because of the units')
+                        elif on(False) is not True:
+                            chk.count('route', 'values-not-decided-equal')
+                    except Exception:   # noqa
+                        chk.count('route', 'eq-not-computable')
 
 
 def circuit_outputs(chk, R, ask, violation):
